@@ -471,7 +471,7 @@ pub fn c02_checks() -> Vec<Box<dyn DynCheck>> {
 
 // ------------------------------------------------------------------------------ C06
 
-pub const C06_RULE: &str = "positions biased to mates, stalemates, single/double/discovered checks, pins, en-passant and promotion checks (cage / pin-check / ep / promotion / castle themes, placements, reachable walks), half-move clock below the draw threshold (0..39, or 99 in one case of eight) and no registered repetition; with a brand-new generator per position and with one generator serving a whole walk: player_is_in_check and current_player_is_in_check == reference 'king attacked'; game_ending (and Game::check_game_over_for_current_turn on a slice) == Checkmate iff in check with no legal move, Stalemate iff not in check with no legal move, None otherwise; every move of generate_moves_and_lazily_update_chess_move_effects carries effect Check/Checkmate/None == classification of the reference successor (never NotYetCalculated). Non-trivial = position is check/mate/stalemate or has a move giving check or mate (labels separate discovered, double, en-passant, promotion and castling checks); distinct = position fingerprint.";
+pub const C06_RULE: &str = "positions biased to mates, stalemates, single/double/discovered checks, pins, en-passant and promotion checks (cage / pin-check / ep / promotion / castle themes, a terminal atlas, crowded many-queen positions with move lists beyond a hundred moves, placements, reachable walks), half-move clock below the draw threshold (0..39, or 99 in one case of eight) and no registered repetition; with a brand-new generator per position and with one generator serving a whole walk: player_is_in_check and current_player_is_in_check == reference 'king attacked'; game_ending (and Game::check_game_over_for_current_turn on a slice, and - game verdicts - on Games created from supplied positions after one move made by its coordinate pair, among them constructed mates in one whose mating move uses the squares of a first move of the opening book) == Checkmate iff in check with no legal move, Stalemate iff not in check with no legal move, None otherwise; every move of generate_moves_and_lazily_update_chess_move_effects carries effect Check/Checkmate/None == classification of the reference successor (never NotYetCalculated). Non-trivial = position is check/mate/stalemate or has a move giving check or mate (labels separate discovered, double, en-passant, promotion and castling checks); distinct = position fingerprint.";
 
 fn classify(pos: &Pos, m: &Mv) -> (ChessMoveEffect, Vec<&'static str>) {
     let after = pos.make(m);
@@ -618,6 +618,9 @@ fn verdict_position() -> BoxedStrategy<String> {
     prop_oneof![
         3 => gen::terminal_biased(),
         3 => gen::terminal_atlas(),
+        // move lists of a hundred and more moves, many of them checks
+        1 => gen::tactical_crowd(),
+        1 => gen::material_extreme().prop_map(low_clock),
         1 => gen::smother_theme(),
         2 => (gen::pre_terminal(), 0u8..8).prop_map(|(fen, k)| {
             let mut p = Pos::from_fen(&fen).unwrap();
@@ -779,9 +782,183 @@ fn replay_c06_tree(case: &Value) -> Result<TestResult, String> {
     Ok(c06_tree(&mut board, &pos, &mut g, depth, &mut st))
 }
 
+/// The verdict as the game loops get it: a Game created from a supplied position, one move made
+/// by its coordinate pair, then check_game_over_for_current_turn. The positions are mates in
+/// one whose mating move goes from and to the squares of a first move of the opening book (a
+/// game that "follows the book" by squares only), built by taking back the checker of a
+/// constructed mate, plus every move of generated near-terminal positions.
+pub struct C06GameVerdicts;
+
+#[derive(Clone, Debug, Serialize, Deserialize)]
+pub struct GameVerdictCase {
+    pub fen: String,
+}
+
+fn book_root_squares() -> Vec<(u8, u8)> {
+    use chess::book::Book;
+    use std::sync::OnceLock;
+    static ROOTS: OnceLock<Vec<(u8, u8)>> = OnceLock::new();
+    ROOTS
+        .get_or_init(|| {
+            let book = Book::default();
+            let mut v: Vec<(u8, u8)> = book
+                .get_next_moves(Vec::new())
+                .iter()
+                .map(|(bm, _)| (sq_of_bb(bm.from_square()), sq_of_bb(bm.to_square())))
+                .collect();
+            v.sort();
+            v.dedup();
+            v
+        })
+        .clone()
+}
+
+fn book_square_mate_in_one(root: u8, ks: u8, white_mated: bool, seed: u64) -> Option<Pos> {
+    let roots = book_root_squares();
+    if roots.is_empty() {
+        return None;
+    }
+    let (f, t) = roots[root as usize % roots.len()];
+    let mated = if white_mated { Side::White } else { Side::Black };
+    let att = mated.other();
+    let empty = Pos::empty();
+    for (i, kind) in [P::Rook, P::Queen, P::Knight, P::Bishop].iter().enumerate() {
+        if !empty.piece_attacks(f, *kind, att, t) {
+            continue;
+        }
+        for k in 0..6u64 {
+            let ks = ((ks as u64 + k * 11) % 64) as u8;
+            if ks == f || ks == t {
+                continue;
+            }
+            let Some(m) = gen::construct_terminal_at(ks, *kind, mated, false, seed ^ (k << 8) ^ i as u64, Some(t), Some(f)) else {
+                continue;
+            };
+            if m.sq[f as usize].is_some() {
+                continue;
+            }
+            let mut p = m.clone();
+            p.sq[f as usize] = p.sq[t as usize].take();
+            p.side = att;
+            if p.consistent().is_err() {
+                continue;
+            }
+            let back = p.legal_moves().into_iter().find(|x| x.from == f && x.to == t && x.cap.is_none() && x.kind == Kind::Std);
+            if let Some(x) = back {
+                let again = p.make(&x);
+                if again.sq == m.sq && again.legal_moves().is_empty() && again.in_check(mated) {
+                    return Some(p);
+                }
+            }
+        }
+    }
+    None
+}
+
+impl Prop for C06GameVerdicts {
+    type Case = GameVerdictCase;
+    fn name(&self) -> &'static str {
+        "C06/game-verdicts"
+    }
+    fn max_shrink_iters(&self) -> u32 {
+        100
+    }
+    fn strategy(&self, _tier: Tier) -> BoxedStrategy<GameVerdictCase> {
+        prop_oneof![
+            3 => (any::<u8>(), 0u8..64, any::<bool>(), any::<u64>()).prop_map(|(root, ks, wm, seed)| {
+                match book_square_mate_in_one(root, ks, wm, seed) {
+                    Some(p) => p.fen(),
+                    None => "7k/5K2/6Q1/8/8/8/8/8 w - - 0 1".to_string(),
+                }
+            }),
+            2 => gen::pre_terminal(),
+            1 => gen::terminal_biased(),
+        ]
+        .prop_map(|fen| GameVerdictCase { fen })
+        .boxed()
+    }
+    fn cases(&self, tier: Tier) -> u32 {
+        tier.pick(1_600, 40_000)
+    }
+    fn test(&self, c: &GameVerdictCase, st: &mut Stats) -> TestResult {
+        let mut pos = Pos::from_fen(&c.fen).map_err(Failure::new)?;
+        pos.half = 0;
+        let roots = book_root_squares();
+        let legal = pos.legal_moves();
+        let want_of = |p: &Pos| -> &'static str {
+            if p.legal_moves().is_empty() {
+                if p.in_check(p.side) {
+                    "Checkmate"
+                } else {
+                    "Stalemate"
+                }
+            } else {
+                "None"
+            }
+        };
+        let name_of = |e: &Option<GameEnding>| match e {
+            Some(GameEnding::Checkmate) => "Checkmate",
+            Some(GameEnding::Stalemate) => "Stalemate",
+            Some(GameEnding::Draw) => "Draw",
+            None => "None",
+        };
+        // the supplied position itself
+        {
+            let mut game = Game::from_board(to_board(&pos), 1);
+            let got = game.check_game_over_for_current_turn();
+            if name_of(&got) != want_of(&pos) {
+                return Err(fail_pos(format!("Game::from_board(..).check_game_over_for_current_turn() = {:?}, the rules say {}", got, want_of(&pos)), &pos));
+            }
+        }
+        let mut book_square_terminal = false;
+        for m in legal.iter().take(40) {
+            let next = pos.make(m);
+            let want = want_of(&next);
+            // all moves that end the game, the moves on book squares, and a few others
+            let on_book = roots.contains(&(m.from, m.to));
+            if want == "None" && !on_book && (m.from + m.to) % 5 != 0 {
+                continue;
+            }
+            let mut game = Game::from_board(to_board(&pos), 1);
+            if game.apply_chess_move_by_from_to_coordinates(bb(m.from), bb(m.to)).is_err() {
+                continue; // making moves is C14's business
+            }
+            game.board_mut().toggle_turn();
+            // the same pair may denote a promotion to a queen: follow what was played
+            let played = from_board(game.board());
+            if played.sq != next.sq {
+                continue;
+            }
+            let got = game.check_game_over_for_current_turn();
+            st.count("game_verdicts", 1);
+            if on_book && want != "None" {
+                book_square_terminal = true;
+            }
+            if name_of(&got) != want {
+                return Err(fail_pos(
+                    format!(
+                        "a Game created from this position, after {} (made by its coordinate pair{}): check_game_over_for_current_turn() = {:?}, the rules say {}",
+                        mv_text(m),
+                        if on_book { ", the squares of a first move of the opening book" } else { "" },
+                        got,
+                        want
+                    ),
+                    &pos,
+                ));
+            }
+        }
+        if book_square_terminal {
+            st.label("game-ended-by-a-move-on-book-squares");
+        }
+        st.nontrivial(pos.fingerprint() ^ 0x6A3E, || json!({"fen": pos.fen(), "ends_on_book_squares": book_square_terminal}));
+        Ok(())
+    }
+}
+
 pub fn c06_checks() -> Vec<Box<dyn DynCheck>> {
     vec![
         Box::new(C06Positions),
+        Box::new(C06GameVerdicts),
         Box::new(C06Walks),
         Box::new(FnCheck {
             name: "C06/tree-used-generator",
